@@ -74,6 +74,7 @@ package check
 //@   ensures[C17] read-only: db == old(db)
 //@   requires wfe(e) && r != nil && ctx != nil
 //@   callsite (*Engine).checkIsAllowed requires[C02] clamp: restDepth == eff(old(restDepth), globalMaxDepth) && 1 <= restDepth && restDepth <= globalMaxDepth
+//@   callsite (*Engine).checkIsAllowed requires[C01] the-request-gets-no-visited-set-here: $arg2 == r && !$arg4 && vset($arg1) == vset(old(ctx))
 //@   ensures[C03] result-inv: res.Err != nil ==> res.Membership != checkgroup.IsMember
 
 // ---- C01: each function of the engine performs one clause of the relationship-graph
@@ -85,6 +86,11 @@ package check
 //@ func (*Engine).checkIsAllowed
 //@   decreases[C15] restDepth + 1, 1, 0
 //@   callsite (*Engine).checkSubjectSetRewrite requires[C01] rewrite-of-the-requested-relation: $arg2 == r && $arg3 == relation.SubjectSetRewrite
+//@   callsite (*Engine).checkSubjectSetRewrite requires[C01] and-operands-get-their-own-visited-sets: relation.SubjectSetRewrite.Operation == ast.OperatorAnd ==> vset(ctx) == 0
+//@   callsite (*Engine).checkExpandSubject requires[C01] expansion-only-where-the-mode-allows-it: !strictMode || relation == nil || hassetexpand(relation)
+//@   callsite (*Engine).checkDirect requires[C01] direct-check-only-where-the-mode-allows-it: (!strictMode || !hasRewrite) && !skipDirect
+//@   ensures[C01] expansion-implies-mode-rule: (restDepth > 0 && err == nil && canHaveSubjectSets) ==> (!strictMode || relation == nil || hassetexpand(relation))
+//@   ensures[C01] no-expansion-implies-mode-rule: (restDepth > 0 && err == nil && !canHaveSubjectSets) ==> strictMode && relation != nil && (forall k in 0..len(relation.Types) :: relation.Types[k].Relation == "")
 //@   callsite (*Engine).checkDirect requires[C01] direct-check-of-the-request: $arg1 == r
 //@   callsite (*Engine).checkExpandSubject requires[C01] expansion-of-the-request: $arg1 == r
 //@   props C02 C03 C15
@@ -99,9 +105,14 @@ package check
 //@   requires wfe(e) && r != nil
 //@   ensures result0 != nil && result0.SubjectSetRewrite != nil ==> wfrw(result0.SubjectSetRewrite)
 
+//@ spec hassetexpand(relation *ast.Relation) bool = exists k in 0..len(relation.Types) :: relation.Types[k].Relation != ""
 //@ func containsSubjectSetExpand
-//@   trusted
-//@   pure
+//@   props C01
+//@   modifies nothing
+//@   requires relation != nil
+//@   ensures[C01] some-declared-type-is-a-subject-set: result ==> hassetexpand(relation)
+//@   ensures[C01] no-declared-type-is-a-subject-set: !result ==> forall k in 0..len(relation.Types) :: relation.Types[k].Relation == ""
+//@   loop 1 invariant forall k in 0..$n :: relation.Types[k].Relation == ""
 
 //@ func (*Engine).checkDirect
 //@   decreases[C15] restDepth + 1, 3, 0
